@@ -828,6 +828,9 @@ impl<'a, 'b> TryInto<AnnotationBuilder<'a>> for AnnotationCsv<'a> {
                     BuildItem::from(data_id.to_owned()),
                 );
             }
+        }
+        {
+            //the target is parsed whether or not the annotation has data
             let mut selectortypes: SmallVec<[SelectorKind; 1]> = SmallVec::new();
             let mut complex = false;
             for (i, selectortype) in self.selectortype.split(";").enumerate() {
